@@ -24,6 +24,10 @@ type kase struct {
 	State  string `json:"state"`
 	Extra  string `json:"extra"`
 	Seed   int64  `json:"seed"`
+	// ListenerOpts: the listener itself is configured with a state and an
+	// extra-protocol option of the server's own (one option list shared between
+	// the server's upstream dialer and its listener)
+	ListenerOpts bool `json:"listener_options,omitempty"`
 }
 
 var stateNames = []string{"absent", "empty", "flat", "nested", "4k", "20k", "40k"}
@@ -125,7 +129,11 @@ func (w *world) one(k kase, r *engine.Report) (string, string) {
 	st, extras := stateOf(k.State), extrasOf(k.Extra)
 	var offered []string // exact offered list, when known
 	var dialErr error
-	rs, err := harness.Serve(harness.ServerConfig{Storage: w.st.Clone()}, func(addr string) {
+	var lopt []nodeenrollment.Option
+	if k.ListenerOpts {
+		lopt = []nodeenrollment.Option{nodeenrollment.WithState(harness.Struct(map[string]any{"this-is": "the server's own state"})), nodeenrollment.WithExtraAlpnProtos([]string{"servers-own-proto"})}
+	}
+	rs, err := harness.Serve(harness.ServerConfig{Storage: w.st.Clone(), Options: lopt}, func(addr string) {
 		switch k.Client {
 		case "dial":
 			var o []nodeenrollment.Option
@@ -176,7 +184,7 @@ func (w *world) one(k kase, r *engine.Report) (string, string) {
 		r.InfraError(err.Error())
 		return "", ""
 	}
-	desc := fmt.Sprintf("client=%s state=%s extra=%s", k.Client, k.State, k.Extra)
+	desc := fmt.Sprintf("client=%s state=%s extra=%s listener-options=%v", k.Client, k.State, k.Extra, k.ListenerOpts)
 	var got *harness.AcceptResult
 	for i := range rs {
 		if rs[i].Panic != "" {
@@ -288,22 +296,24 @@ func run(c *engine.Ctx, r *engine.Report) {
 				if unverifiable(client) && (s == "absent" || s == "empty") {
 					continue
 				}
-				i++
-				if !c.Mine(i) {
-					continue
-				}
-				k := kase{client, s, e, c.Seed}
-				r.Eval(1)
-				before := r.Outcomes["trivial"]
-				if sig, msg := w.one(k, r); sig != "" {
-					r.Violate(sig, msg, k)
-					continue
-				}
-				if r.Outcomes["trivial"] == before {
-					r.Nontrivial(1)
-				}
-				if i%17 == 3 {
-					r.Sample(k)
+				for _, lo := range []bool{false, true} {
+					i++
+					if !c.Mine(i) {
+						continue
+					}
+					k := kase{Client: client, State: s, Extra: e, Seed: c.Seed, ListenerOpts: lo}
+					r.Eval(1)
+					before := r.Outcomes["trivial"]
+					if sig, msg := w.one(k, r); sig != "" {
+						r.Violate(sig, msg, k)
+						continue
+					}
+					if r.Outcomes["trivial"] == before {
+						r.Nontrivial(1)
+					}
+					if i%17 == 3 {
+						r.Sample(k)
+					}
 				}
 			}
 		}
@@ -326,7 +336,7 @@ func init() {
 	engine.Register(&engine.CheckDef{
 		ID:    "C16",
 		Level: "exploration",
-		Rule: "client state {absent, empty, flat, nested 3 levels, 4 KiB, 20 KiB, 40 KiB} x extra ALPN lists {none, one, five, duplicates, fetch-prefix-like, preference-like, auth-like, odd names incl. the split listener's reserved ones and a 255-byte name} through the real Dial and through a hand-built client whose offered list is known exactly, plus the same with a state signature that cannot verify {signed by another key, the node's signature over a different state, absent} each with and without the request's skip_verification flag set by the client; oracle evaluated only on authenticated connections; " +
+		Rule: "client state {absent, empty, flat, nested 3 levels, 4 KiB, 20 KiB, 40 KiB} x extra ALPN lists {none, one, five, duplicates, fetch-prefix-like, preference-like, auth-like, odd names incl. the split listener's reserved ones and a 255-byte name} through the real Dial and through a hand-built client whose offered list is known exactly, plus the same with a state signature that cannot verify {signed by another key, the node's signature over a different state, absent} each with and without the request's skip_verification flag set by the client; every case against a listener without options and against one whose own option list carries a state and an extra-protocol option; oracle evaluated only on authenticated connections; " +
 			"distinct_nontrivial counts cases (distinct by construction) whose connection authenticated (or, for forged state, was judged)",
 		Assumptions: []string{"an empty client state and an absent one are treated as the same value (both carry no fields)", "states too large for a ClientHello do not authenticate and are counted, not judged"},
 		Shards:      func(c *engine.Ctx) int { return 8 },
